@@ -22,14 +22,14 @@ PROPS = {
             _c02("TestC14", "c14", (2, 10), (2, 500)),
             _c02("TestC20Loop", "c20", (2, 3), (3, 120)),
             _c02("TestC18", "c18", (2, 12), (3, 300)),
-            _c02("TestC02Params", "props", (3, 25), (4, 2500)),
+            _c02("TestC02Params", "props", (4, 100), (8, 2500)),
             _c02("TestC02Slash", "props", (3, 25), (4, 2500)),
             dict(_c02("TestC02Adversarial", "c02adv", (6, 40), (8, 1500)), crash_is_violation=True),
         ],
         rule="union profile: the histories generated for C01, C03 (corrupted signature shares), C07, C08, C10, C14, C15, C17 and C20 (valid and "
              "invalid messages of oracle, tss, bandtss, feeds, tunnel, restake with boundary and adversarial field values, dt from 0 to minutes) "
              "plus a parameter stage (every custom module's parameters drawn from edge values accepted by Params.Validate: percentages 0/100, quorum 0/1, "
-             "periods 1/2^63/2^64-1, zero and huge limits, with and without price reporters) and a slashing stage (delegate / redelegate / undelegate / "
+             "periods 1/2^63/2^64-1, zero and huge limits, signing fees of 0, 1, 2^255 and 2^256-1 uband, with and without price reporters; fixed traffic of every module incl. oracle requests with a TSS encoder that are reported and resolved, so that the end blockers' signing creation runs under those parameters) and a slashing stage (delegate / redelegate / undelegate / "
              "restake / feeds votes with locks at full, half or full+1 power, then blocks carrying double-sign evidence with infraction heights 1-8 blocks back) and an adversarial-message stage (all 38 Msg types of the seven custom modules, each from a valid late-bound template of the current state and then with 0-3 fields mutated by a reflection-based mutator: boundary integers, foreign/empty addresses, huge coins and big integers, truncated/oversized bytes, repeated/emptied slices, wrong enum values, wrong Any contents; authority-only messages through real governance proposals; bursts of DKG rounds / signatures / reports / prices so that deep states are reached) are executed on 3 replicas of the real application (separate DB, home dir and VM) in one process; non-trivial = successful "
              "transactions of >=2 of the custom modules AND >=1 end block that did cross-module work (resolve, aggregate/fail/assign signing, "
              "tunnel packet, price update, penalty, transition) AND replicas compared on every block; distinct = hash of case JSON",
@@ -322,9 +322,9 @@ PROPS = {
             dict(test="TestC09Chain", quick=(8, 40), thorough=(16, 2500), timeout=dict(quick=900, thorough=3300)),
             dict(test="TestC09Signers", quick=(8, 25), thorough=(16, 1500), timeout=dict(quick=900, thorough=3300)),
         ],
-        rule="case = (seed, nonce, chain id, weight vector 1..60 entries from 6 families, cnt 1..n, tries 1..5) drawn by "
+        rule="case = (seed, nonce, chain id, weight vector 1..60 entries from 6 families, cnt 1..n, tries 1..5, 12-14, 20-100) drawn by "
              "rapid; non-trivial = n>=4 and weights not all equal and cnt<n. Chain: 1-8 validators (equal/small/dominant/random tokens, some never or late "
-             "activated), SamplingTryCount 1-5, random chain id, requests with ask 1..n+1 on the real app; same non-triviality on the eligible set. Signers: "
+             "activated), SamplingTryCount 1-100 from genesis and changed in flight by governance to 0, 1, 2, 13, 100 or 101 (a refused proposal changes nothing; an accepted value is the one the reference samples with), random chain id, requests with ask 1..n+1 on the real app; same non-triviality on the eligible set. Signers: "
              "TSS histories (see C05) where every assignment is compared; non-trivial = group >=4 with more available members than the threshold; "
              "distinct = 64-bit hash of the case JSON",
         explanation="differential against an independent port of the sampling specification (own HMAC_DRBG(SHA-256), "
